@@ -212,6 +212,11 @@ def run(ctx):
                        "op=%d flags=%#x body %s (logical %s)" % (v["configured"] or "none", v["advertised"] if v["advkey"] else "absent",
                                                                  v["startup"], v["idx"], v["conn"], v["op"], v["flags"], _short(v["wire"]),
                                                                  _short(v["logical"]) if v["haslog"] else "n/a")
+            elif v["k"] == "follow":
+                key = "follow-%s-%s-negotiated=%s-%s" % (kind, v["stage"], v["negotiated"] or "none", v["kind"])
+                what = "after a %s response (%s, compression flag %s; first caller got %s) on a connection with compressor %s the FOLLOWING " \
+                       "request on that connection got %s %s" % (v["stage"], v["kind"], v["flag"], v["first"], v["negotiated"] or "none",
+                                                                 v["outcome"], v["detail"])
             else:
                 key = "resp-%s-%s-negotiated=%s-%s" % (kind, v["stage"], v["negotiated"] or "none", v["kind"])
                 what = "%s response (%s, compression flag %s) on a connection with compressor %s: caller got %s %s" % (
@@ -271,7 +276,11 @@ def run(ctx):
                               frames_forwarded=sum(1 for v in vec["push"] if v["k"] == "srv"),
                               compressed_frames=sum(1 for v in vec["push"] if v["k"] == "srv" and v["flag"]),
                               compressed_pushed_events=sum(1 for v in vec["push"] if v["k"] == "srv" and v["flag"] and v["stream"] < 0),
-                              opcodes=sorted({v["op"] for v in vec["push"] if v["k"] == "srv"})),
+                              opcodes=sorted({v["op"] for v in vec["push"] if v["k"] == "srv"}),
+                              big_rows_results_compressed_below_rows_x_cols_x_4=sum(
+                                  1 for v in vec["push"] if v["k"] == "srv" and v["flag"] and v["stage"].startswith("rows-250")
+                                  and len(v["body"]) < 250 * 2 * 4)),
+        following_requests=sum(1 for v in vec["resp"] if v["k"] == "follow"),
         large_bodies_go_roundtrip_only=dict(max_bytes=summ["snappy"]["big_max"], ok={a: summ[a]["big_ok"] for a in ("snappy", "lz4")}),
         samples=[dict(kind="enc", alg="lz4", body=enc_s.get("body"), enc=enc_s.get("enc")),
                  dict(kind="dec", alg="snappy", stream=dec_s.get("stream"), out=dec_s.get("out"), err=dec_s.get("err")),
